@@ -47,7 +47,7 @@ def floors(tier):
     return {"evaluations": 600 if tier == "quick" else 15000, "distinct": 600 if tier == "quick" else 15000,
             "counters": {"style_documents": 250, "styled_cells_reloaded": 2000, "style_attributes_compared": 30000, "unstyled_cells_compared": 2500, "stroke_scripts": 400,
                          "strokes": 3000, "edges_superseded": 500, "border_cells_judged_open": 20000, "border_cells_judged_reloaded": 5000, "merged_tables": 40,
-                         "readonly_fixtures": 40, "contract:stroke_order": 3000, "mutated_after_apply": 60, "bg_images": 30, "near_duplicate_styles": 100, "cells_restyled_after_a_save": 500, "two_table_stroke_scripts": 60, "border_tables_reshaped_first": 60},
+                         "readonly_fixtures": 40, "contract:stroke_order": 3000, "mutated_after_apply": 60, "bg_images": 30, "near_duplicate_styles": 100, "cells_restyled_after_a_save": 500, "styles_changed_after_a_save": 80, "two_table_stroke_scripts": 60, "border_tables_reshaped_first": 60},
             "hist_sizes": {"font_family": 150 if tier == "quick" else 185}}
 
 
@@ -296,6 +296,34 @@ def style_case(case, rec):
                 t.set_cell_style(pos[0], pos[1], st)
                 applied[pos] = st
                 rec.count("cells_restyled_after_a_save")
+            # a style that is already in the first file changed afterwards - also back to a default value (auto alignment,
+            # no bold, the default size), which must overwrite what the first save stored
+            if rng.random() < .7:
+                from numbers_parser import Alignment
+                kw_, st = rng.choice(styles)
+                for which in rng.sample(["alignment-auto", "alignment", "bold-off", "italic-off", "font_size", "font_color", "text_wrap", "indents-zero", "bg_color"], rng.randint(1, 3)):
+                    if which == "alignment-auto":
+                        st.alignment = Alignment("auto", "top")
+                    elif which == "alignment":
+                        st.alignment = Alignment(rng.choice(["left", "center", "right", "justified"]), rng.choice(["top", "middle", "bottom"]))
+                    elif which == "bold-off":
+                        st.bold = False
+                    elif which == "italic-off":
+                        st.italic = False
+                    elif which == "font_size":
+                        st.font_size = 11.0
+                    elif which == "font_color":
+                        st.font_color = RGB(0, 0, 0)
+                    elif which == "text_wrap":
+                        st.text_wrap = True
+                    elif which == "indents-zero":
+                        st.first_indent = 0.0
+                        st.left_indent = 0.0
+                        st.right_indent = 0.0
+                        st.text_inset = 4.0
+                    elif which == "bg_color" and st.bg_image is None:
+                        st.bg_color = RGB(255, 255, 255)
+                rec.count("styles_changed_after_a_save")
             want = {pos: style_tuple(st) for pos, st in applied.items()}
             try:
                 doc3 = reopen(doc, str(case["rseed"]) + "-again")
